@@ -898,6 +898,8 @@ func (ex *Exec) step(st *State, in ssa.Instruction) []*State {
 		ex.setAt(st, "Chlen", Store(st.get("Chlen", SArr(SRef, SInt)), r, IntLit(0, SInt)), r)
 		ex.setAt(st, "Chcap", Store(st.get("Chcap", SArr(SRef, SInt)), r, cp), r)
 		ex.setAt(st, "Chclosed", Store(st.get("Chclosed", SArr(SRef, SBool)), r, TFalse), r)
+		// a channel made by the program is a buffer: it is ready to receive iff it is non-empty
+		st.assume(App("isSlot", SBool, r))
 		set(x, scalar(r, x.Type()))
 	case *ssa.MakeClosure:
 		r := ex.newRef(st, "clo")
@@ -1253,6 +1255,10 @@ func (ex *Exec) typeAssert(st *State, x *ssa.TypeAssert) []*State {
 	nonnil := Neq(v.T, IntLit(0, v.T.Sort))
 	var ok *Term
 	var res *Val
+	if tp, isTP := v.BoxTy.(*types.TypeParam); isTP && tp != nil {
+		// a value of type-parameter type: its dynamic type is unknown
+		v = &Val{K: v.K, T: v.T, Ty: v.Ty, Clo: v.Clo}
+	}
 	if _, isIface := x.AssertedType.Underlying().(*types.Interface); isIface {
 		if v.Box != nil && v.BoxTy != nil {
 			ok = And(nonnil, Bool(types.Implements(v.BoxTy, x.AssertedType.Underlying().(*types.Interface))))
@@ -1518,6 +1524,7 @@ func (ex *Exec) selectOp(st *State, x *ssa.Select) []*State {
 		} else {
 			// receive: ready (for ghost-tracked channels: non-empty)
 			s.assume(App("chanReady", SBool, ch.T, cur))
+			s.assume(Implies(App("isSlot", SBool, ch.T), Gt(cur, IntLit(0, SInt))))
 			if !(ch.T.Op == "app" && ch.T.Name == "doneChan") {
 				// (a context's Done channel is only ever closed: receiving does not change any occupancy)
 				ex.set(s, "Chlen", Store(ln, ch.T, Ite(Gt(cur, IntLit(0, SInt)), Sub(cur, IntLit(1, SInt)), cur)))
@@ -1539,6 +1546,7 @@ func (ex *Exec) selectOp(st *State, x *ssa.Select) []*State {
 				s.assume(Ge(cur, Select(s.get("Chcap", SArr(SRef, SInt)), ch.T)))
 			} else {
 				s.assume(Not(App("chanReady", SBool, ch.T, cur)))
+				s.assume(Implies(App("isSlot", SBool, ch.T), Le(cur, IntLit(0, SInt))))
 			}
 		}
 		s.path += "sd"
